@@ -186,6 +186,20 @@ def gen_noprogress(ctx, N):
         out.append(Case(prob, [2.0 ** 60] * n, [], [], P, True, 1e-12, tag="noprogress"))
     return out
 
+def gen_overshoot(ctx):
+    """momentum overshoots the upper bound: x̂ sticks to the bound for ONE iteration (x̂_k == x̂_{k-1}), moves on, and stalls again only at the very end:
+    distinguishes 'no_progress counts consecutive unchanged iterates' (reset in between) from an accumulating counter"""
+    out = []
+    for x0 in (-3.0, -10.0):
+        for L, q, mode in ((2.0, 1.0, "fixed"), (4.0, 1.0, "fixed"), (2.0, 1.0, "L0"), (1.0, 0.25, "fixed")):
+            for mnp in (1, 2):
+                prob = sl.Problem(1, 0, [[q]], [-q * 0.999], [0.0], [], [], [-1.0], [1.0], [], [])
+                P = {"max_iter": 200, "crit": "ProjGradNorm", "max_no_progress": mnp}
+                if mode == "fixed": P["L_min"] = L; P["L_max"] = L
+                else: P["L_0"] = L
+                out.append(Case(prob, [x0], [], [], P, True, 1e-300, tag="overshoot"))
+    return out
+
 def gen_dyadic(ctx):
     """exact ties on exactly representable data: eps == tol, QUB with equality, L == L_max, k == max_iter"""
     rng = ctx.rng
@@ -243,6 +257,26 @@ def oracle(cs, o):
             rhs = psi + gp + 0.5 * L * nsq + (1 + abs(psi)) * P("qub_tol")
             if all(math.isfinite(t) for t in (psi, psih, rhs, L)) and L < P("L_max") and psih > rhs + 1e-9 * (abs(psi) + abs(gp) + L * nsq + abs(psih)):
                 bad.append(("FISTA:qub-violated-at-reported-iterate", "k=%d: psi(x_hat)=%r > %r with L=%r < L_max" % (r["k"], psih, rhs, L)))
+        # the reported ε is the criterion evaluated on the data of THIS record (p, γ, ∇ψ(x), ∇ψ(x̂) as reported)
+        crit = P("crit")
+        eps_r, gam_r = D(r, "eps"), D(r, "gamma")
+        if crit in ("ApproxKKT", "ApproxKKT2", "ProjGradNorm", "ProjGradNorm2", "FPRNorm", "FPRNorm2") and math.isfinite(eps_r) and gam_r != 0:
+            if crit.startswith("ApproxKKT"):
+                vecr = [(1 / gam_r) * a + (b - c) for a, b, c in zip(pp, V(r, "grad"), V(r, "gradh"))] if len(V(r, "gradh")) == len(pp) else None
+            else:
+                vecr = list(pp)
+            if vecr is not None and all(math.isfinite(t) for t in vecr):
+                ref = sl.norm2(vecr) if crit.endswith("2") else sl.norm_inf(vecr)
+                if crit.startswith("FPRNorm"): ref = ref / gam_r
+                sc = max([abs(t) / abs(gam_r) for t in pp] + [abs(t) for t in V(r, "grad")] + [1e-300])
+                if not sl.close(eps_r, ref, 1e-9, 1e-10 * sc):
+                    bad.append(("FISTA:eps-not-criterion-of-reported-iterate", "k=%d: reported eps=%r but %s on the reported p, gamma, gradients gives %r" % (r["k"], eps_r, crit, ref)))
+        # the gradient shown with the iterate is the gradient at THIS x (independent recomputation)
+        if cs.nan_from < 0 and all(math.isfinite(t) for t in x) and max([abs(t) for t in x] + [0]) < 1e6 and (p.m == 0 or runcorr.well_conditioned_zeta(p, p.g(x), cs.y0, cs.S0)):
+            ref = p.grad_psi(x, cs.y0, cs.S0)
+            sc = max([abs(t) for t in ref] + [abs(t) for t in p.grad_f(x)] + [1.0])
+            if any(not (abs(a - b) <= 1e-6 * sc) for a, b in zip(V(r, "grad"), ref)):
+                bad.append(("FISTA:stale-gradient-at-x", "k=%d: reported grad psi(x) = %r but recomputed at the reported x = %r" % (r["k"], V(r, "grad"), ref)))
         # the gradient at x_hat shown to the criterion is the gradient at THIS x_hat (independent recomputation)
         if cs.need() and cs.nan_from < 0 and all(math.isfinite(t) for t in xh) and max([abs(t) for t in xh] + [0]) < 1e6:
             gh = V(r, "gradh")
@@ -264,6 +298,41 @@ def oracle(cs, o):
         ta, tb = D(a, "t"), D(b, "t")
         if math.isfinite(ta) and math.isfinite(tb) and not sl.close(tb * (tb - 1), ta * ta, 1e-9, 1e-12):
             bad.append(("FISTA:momentum-recurrence", "k=%d: t=%r -> %r but t+(t+ - 1) = %r != t^2 = %r" % (a["k"], ta, tb, tb * (tb - 1), ta * ta)))
+    # x_{k+1} = x̂_k (acceleration disabled) / x̂_k + ((t_k - 1)/t_{k+1}) (x̂_k - x̂_{k-1})
+    for j in range(len(recs) - 1):
+        a, b = recs[j], recs[j + 1]
+        xa, xb = V(a, "xh"), V(b, "x")
+        if P("noaccel"):
+            if [t.hex() for t in xa] != [t.hex() for t in xb] and not any(math.isnan(t) for t in xa + xb):
+                bad.append(("FISTA:next-x-not-xhat", "k=%d: acceleration disabled but x_{k+1} = %r != x_hat_k = %r" % (a["k"], xb, xa)))
+        elif j >= 1 or D(a, "t") == 1.0:
+            prev = V(recs[j - 1], "xh") if j >= 1 else xa      # coefficient (t_0 - 1)/t_1 = 0 at k = 0
+            ta, tb = D(a, "t"), D(b, "t")
+            if all(math.isfinite(t) for t in xa + xb + prev + [ta, tb]) and tb != 0 and max(abs(t) for t in xa + prev + [0.0]) < 1e100:
+                cf = (ta - 1) / tb
+                ref = [u + cf * (u - v) for u, v in zip(xa, prev)]
+                if any(not sl.close(u, v, 1e-9, 1e-12 * (1 + abs(v))) for u, v in zip(xb, ref)):
+                    bad.append(("FISTA:extrapolation", "k=%d: x_{k+1} = %r but x_hat_k + ((t_k-1)/t_{k+1})(x_hat_k - x_hat_{k-1}) = %r" % (a["k"], xb, ref)))
+    # no-progress counter: counts CONSECUTIVE iterations with x̂_k == x̂_{k-1} (sampled every max_no_progress iterations while it is 0);
+    # a Busy record implies counter <= max_no_progress, status NoProgress implies counter > max_no_progress
+    if recs and not any(math.isnan(t) for r in recs for t in V(r, "xh")):
+        mnp = P("max_no_progress")
+        if cs.fixed() or P("L_0") > 0:
+            prev = [float(t) for t in cs.x0]
+        else:   # the finite-difference Lipschitz estimate leaves x0 - h in the x̂ buffer
+            g0 = V(recs[0], "grad")
+            h = [(max(P("lip_eps") * g, P("lip_delta")) if g > 0 else min(P("lip_eps") * g, -P("lip_delta"))) for g in g0]
+            prev = [a - b for a, b in zip([float(t) for t in cs.x0], h)]
+        cnt = 0
+        for r in recs:
+            xh = V(r, "xh")
+            if cnt > 0 or mnp == 0 or r["k"] % mnp == 0:
+                cnt = cnt + 1 if xh == prev else 0
+            prev = xh
+            if r["status"] == "Busy" and cnt > mnp:
+                bad.append(("FISTA:noprogress-missed", "k=%d: %d consecutive unchanged x_hat > max_no_progress=%d but the solver went on" % (r["k"], cnt, mnp))); break
+            if r["status"] == "NoProgress" and cnt <= mnp:
+                bad.append(("FISTA:noprogress-too-early", "k=%d: status NoProgress with only %d consecutive unchanged x_hat (max_no_progress=%d)" % (r["k"], cnt, mnp))); break
     if recs and D(recs[0], "t") != 1.0:
         bad.append(("FISTA:momentum-start", "t_0 = %r != 1" % D(recs[0], "t")))
     if recs and recs[-1]["status"] != "Busy":
@@ -313,7 +382,7 @@ def near_tie(cs, o):
 
 def is_dyadic(cs):
     # exact data (powers of two / small dyadics): never discarded as a near tie
-    return cs.tag in ("dyadic", "noprogress")
+    return cs.tag in ("dyadic", "noprogress", "overshoot")
 
 # ------------------------------------------------------------------ run
 def run(ctx):
@@ -340,7 +409,7 @@ def attach(ctx, scale=0.35, extra_oracle=None):
 
 def run_corr(ctx, prefix, scale, extra_oracle=None):
     if not build_driver(ctx, "solve"): return
-    cases = (gen_dyadic(ctx) + gen_noprogress(ctx, max(6, int(scale * ctx.n(15, 60)))) +
+    cases = (gen_dyadic(ctx) + gen_overshoot(ctx) + gen_noprogress(ctx, max(6, int(scale * ctx.n(15, 60)))) +
              gen_constrained_fixed(ctx, max(20, int(scale * ctx.n(80, 800)))) + gen_random(ctx, max(40, int(scale * ctx.n(260, 3000)))))
     outs = run_driver(ctx, "solve", "".join(c.rq.to_input() for c in cases), timeout=1500)
     if outs is None or len(outs) != len(cases):
